@@ -10,7 +10,7 @@ G1 lookup: exact name first, synonyms case-insensitively, wildcards on request;
 T1 no silent narrowing of an integer value.
 """
 from ..linrel import Lin, GE, LE, GT, LT, infeasible, entails
-from ..cfg import reach_calls, expand_locals, norm_facts, xrender, Facts, kids, strip, walk, cv, render, short_loc, call_args, TRANSPARENT, call_object
+from ..cfg import MiniInt, reach_calls, expand_locals, norm_facts, xrender, Facts, kids, strip, walk, cv, render, short_loc, call_args, TRANSPARENT, call_object
 import re
 from ..facts import export_many, AnalysisBroken
 from .. import units
@@ -162,7 +162,8 @@ def known_nonzero(F, f, node):
 
 def run(rep, ctx):
     repo = ctx["repo"]
-    jobs = [dict(unit="src/solver.cc", fn=FN, repo=repo),
+    jobs = [dict(unit="src/solver.cc", fn=FN, repo=repo, closure=1,
+                 closure_roots=r"(OptionHelper::Parse|BasicSolver::ParseOptionString|SolverOptionManager::FindOption|Skip[A-Za-z]*)$"),
             dict(unit="src/option.cc", fn=FN, repo=repo),
             dict(unit="test/solver-test.cc", fn=[r"mp::TypedSolverOption::Parse",
                                                   r"mp::internal::OptionHelper::Parse"], repo=repo)]
@@ -546,7 +547,9 @@ def run(rep, ctx):
         fs = x.cfg.valid_facts_at(r)
         lo = hi = False
         for cid, pol in fs:
-            c = strip(x.nodes[cid])
+            c = strip(expand_locals(x, x.nodes[cid]))          # a one-line range predicate (FitsInInt(value)) is looked through
+            while c is not None and c["k"] == "UnaryOperator" and c.get("op") == "!":
+                c = strip(kids(c)[0])
             txt = render(c)
             if v.get("name") and v["name"] in txt and c["k"] == "BinaryOperator":
                 if any(t in txt for t in ("INT_MAX", "2147483647", "max()")):
@@ -561,6 +564,12 @@ def run(rep, ctx):
                  "`return %s` converts long to int with no range check: an integer value beyond "
                  "INT_MAX silently becomes a different number" % render(v))
 
+    class _OOB(Exception):
+        pass
+
+    def _oob(a_):
+        raise _OOB("reads offset %d, outside the text" % a_)
+
     def _v1():
         # ---- V1 --------------------------------------------------------------------------
         v1 = rep.rule("C11.V1", "RANGE", "a quoted string value is exactly the bytes between the quotes (closed) or up to the end of the "
@@ -571,15 +580,28 @@ def run(rep, ctx):
             raise AnalysisBroken("C11.V1: SkipToMatchingQuote / OptionHelper<std::string>::Parse not found")
         q = sq[0]
         par = q.params[0]["name"]
-        stm = [s_ for s_ in kids(q.body) if s_.get("mo") != "assert" and s_.get("m") != "assert" and s_["k"] != "NullStmt"]
-        shape = [render(x).replace(" ", "").replace("'\\x00'", "0") for x in stm]
-        want = ["charquote=%s[0]" % par, "++%s" % par, None, "return*%s?%s+1:%s" % (par, par, par)]
-        wl = [x for x in stm if x["k"] == "WhileStmt"]
-        okq = len(stm) == 4 and shape[0] == want[0] and shape[1] == want[1] and shape[3] == want[3] and len(wl) == 1 and \
-            render(kids(wl[0])[0]).replace(" ", "") == "*%s&&*%s!=quote" % (par, par) and render(kids(wl[0])[1]) == "++" + par
+        # case evaluation on modelled texts (the pointer is an index into a NUL-terminated string)
+        cases = [("'abc' x", 5), ('"a"', 3), ("'abc", 4), ("''", 2), ("'", 1), ('"it\'s" y', 6), ("'a\"b", 4)]
+        wrong = []
+        for text, want_pos in cases:
+            buf = text + "\0"
+            mi = MiniInt(F, lambda t_, n_, env_: None, mem=lambda a_, buf=buf: ord(buf[a_]) if 0 <= a_ < len(buf) else _oob(a_))
+            try:
+                got = mi.call(q, [0])
+            except _OOB as e_:
+                got = str(e_)
+            except AnalysisBroken as e_:
+                if "does not terminate" in str(e_):
+                    got = "does not stop"
+                else:
+                    raise AnalysisBroken("C11.V1: SkipToMatchingQuote: %s" % e_)
+            if got != want_pos:
+                wrong.append((text, got, want_pos))
+        okq = not wrong
+        shape = wrong
         v1.check(okq, "scan-postcondition", short_loc(q.loc),
-                 "SkipToMatchingQuote returns the position after the closing quote, or the end of the text if there is none",
-                 "SkipToMatchingQuote has the form %s" % shape)
+                 "SkipToMatchingQuote returns the position after the closing quote, or the end of the text if there is none (%d modelled texts)" % len(cases),
+                 "SkipToMatchingQuote: (text, returned offset, expected) = %s" % shape)
         g = sp_[0]
         endv = [v_ for v_ in g.walk() if v_["k"] == "VarDecl" and v_.get("name") == "end" and kids(v_)]
         rets = [r_ for r_ in g.find(lambda n: n["k"] == "ReturnStmt") if endv and any(x.get("declId") == endv[0]["declId"] for x in walk(r_))]
